@@ -672,6 +672,8 @@ func (r *lsmRun) program(p lsmProfile) {
 
 // scripted regression programs, run before the random ones
 var lsmScripts = map[string][]string{
+	// a zero-length value is a value, not a delete (only a nil value is): over an older value, alone, through flush and reopen
+	"empty_value_plain": {"put a 1", "put a empty", "put b empty", "read", "rotate", "flush", "read", "put a 2", "put a empty", "read", "reopen", "read"},
 	// a wide, newer ingest table arrives after a narrower one that starts later: the lookup must not stop at the
 	// narrower table's bound (running maxima of the range index follow the SORTED order, not the arrival order)
 	"ingest_wide_after_narrow_plain": {"put x 1", "rotate", "flush", "move", "drain", "read", "put m 2", "put p 3", "rotate", "flush", "move", "put a 4", "put x 5", "put z 6", "rotate", "flush", "move", "read", "reopen", "read"},
@@ -718,6 +720,8 @@ func (r *lsmRun) script(steps []string, plain bool) {
 		case "put":
 			if f[2] == "del" {
 				_ = r.put(kv.CFDefault, []byte(f[1]), 0, nil, true, true)
+			} else if f[2] == "empty" {
+				_ = r.put(kv.CFDefault, []byte(f[1]), 0, []byte{}, false, true)
 			} else {
 				_ = r.put(kv.CFDefault, []byte(f[1]), 0, []byte("v"+f[2]), false, true)
 			}
@@ -844,7 +848,7 @@ func runLsm(c *corr.Ctx) error {
 		runTargets(c, c.Scale(300, 20000))
 	}
 	if plain {
-		for _, name := range []string{"l0_tie", "ingest_tie", "ingest_tie2", "drain_overlap_plain", "ingest_over_main_plain", "l0_prefix_plain", "base_level_drop_plain", "ttl_shadow_plain", "ingest_wide_after_narrow_plain"} {
+		for _, name := range []string{"l0_tie", "ingest_tie", "ingest_tie2", "drain_overlap_plain", "ingest_over_main_plain", "l0_prefix_plain", "base_level_drop_plain", "ttl_shadow_plain", "ingest_wide_after_narrow_plain", "empty_value_plain"} {
 			runScriptLsm(c, name, true)
 		}
 	} else if c.Prop == "C12" {
